@@ -172,19 +172,19 @@ func RunWireSched(c SchedCase) (hist []HOp, cmdlog []string, v *vstat.Violation)
 	}
 	before := map[string]*left{}
 	for k := 0; k < c.NKeys; k++ {
-		if r, err := clients[0].Get(ctx, Keys[k]); err == nil {
-			before[Keys[k]] = &left{r.Version, r.ExpiresAt != nil}
+		if r, err := clients[0].Get(ctx, c.key(k)); err == nil {
+			before[c.key(k)] = &left{r.Version, r.ExpiresAt != nil}
 		}
 	}
 	m.FastForward(2 * time.Hour)
 	for k := 0; k < c.NKeys; k++ {
-		b := before[Keys[k]]
-		r, err := clients[0].Get(ctx, Keys[k])
+		b := before[c.key(k)]
+		r, err := clients[0].Get(ctx, c.key(k))
 		switch {
 		case b != nil && !b.exp && (err != nil || r.Version != b.ver):
-			return hist, cmdlog, vstat.V("redis:unexpired-record-vanished", "after the history key %q held a record without expiry (version %s); two hours of server time later Get returns (%s, %v) - something gave it a TTL", Keys[k], b.ver, r.Version, err)
+			return hist, cmdlog, vstat.V("redis:unexpired-record-vanished", "after the history key %q held a record without expiry (version %s); two hours of server time later Get returns (%s, %v) - something gave it a TTL", c.key(k), b.ver, r.Version, err)
 		case (b == nil || b.exp) && err == nil:
-			return hist, cmdlog, vstat.V("redis:record-outlived-expiry", "key %q holds version %s two hours after the history although it was absent or due to expire within the hour", Keys[k], r.Version)
+			return hist, cmdlog, vstat.V("redis:record-outlived-expiry", "key %q holds version %s two hours after the history although it was absent or due to expire within the hour", c.key(k), r.Version)
 		}
 	}
 	return hist, cmdlog, nil
